@@ -103,6 +103,9 @@ BASE = [("send", "presence"), ("recv", "ack"), ("send", "iq_ping"), ("recv", "iq
 FOLLOWUPS = [(0, ("send", "presence")), (1, ("recv", "ack")), (1, ("send", "iq_ping")),
              (0, ("recv", "iq_ping_from_server"))]
 
+MSG_FOLLOWUPS = [(0, ("send", "msg_a")), (1, ("send", "msg_b")), (1, ("send", "msg_a")), (0, ("recv", "ack")),
+                 (0, ("send", "presence"))]
+
 REAL = {  # cause -> (dir of the failing op, op, model failspec (node, occurrence, mode), exception class)
     "unencodable": ("down", ("send", "unencodable"), (S(3), 0, 1), "AttributeError"),
     # refused by the noise layer BEFORE it is encrypted (fix C12-oversize-refused-before-encryption): the send nonce
@@ -136,6 +139,13 @@ def gen_scenarios(ctx):
             if li < TOP - 1:
                 sc.append({"pre": pos, "cause": "generic", "layer": li, "dir": "down", "occ": 0,
                            "op": ["recv", "iq_ping_from_server"], "reconnect": False})
+    # a send that leaves state in an UPPER layer before it goes down: a message to a contact without a session (the
+    # axolotl send layer notes the contact and sends a get-keys iq down).  The failure below must not wedge that
+    # contact: the next message to the same contact is processed like the first one (one frame on the wire).
+    for pos in positions[:1] if quick else positions[:3]:
+        for li in range(0, 6):
+            sc.append({"pre": pos, "cause": "generic", "layer": li, "dir": "down", "occ": 0,
+                       "op": ["send", "msg_a"], "reconnect": False, "followups": MSG_FOLLOWUPS})
     # real causes
     for pos in positions:
         for cause in REAL:
@@ -321,8 +331,8 @@ def run_impl(ctx, scn, seed):
             notes["reconnect"] = st if st != "error" else "error:%r" % (r,)
             if st == "blocked":
                 workers[1] = Worker()
-        for thread, op in FOLLOWUPS:
-            do(thread, op, role="followup")
+        for thread, op in scn.get("followups") or FOLLOWUPS:
+            do(thread, tuple(op), role="followup")
     finally:
         for w in workers:
             w.stop()
